@@ -25,13 +25,16 @@ pub struct C17Case {
     pub steps: Vec<Step>,
     /// idle-timeout scenario: server timeout 1 s; after the steps all served connections idle out
     pub idle: bool,
+    /// listener threads sharing the server (memcrsd's current-thread mode); 0/1 = one listener
+    #[serde(default)]
+    pub listeners: u8,
 }
 
 pub const ENDINGS: [&str; 9] = [
     "close_after_exchange", "quit", "quitq", "close_mid_header", "close_mid_body", "reset", "protocol_error", "oversized_then_close", "give_up",
 ];
 
-pub const RULE: &str = "proptest sequences of connection lifecycles against an in-process server with connection limit 1..4 (current-thread and 2-worker runtimes): Open steps (up to limit+3 connections open at once) and End steps ending a selected open connection by client close after a complete exchange, quit, quitq, close in the middle of a header, close in the middle of a body, abortive reset, protocol error (bad magic), oversized item followed by close, or (for a connection still waiting) giving up; plus idle-timeout scenarios (server timeout 1 s). After EVERY step a noop is outstanding on every open connection and the slot model is checked: exactly min(limit, open) connections have been answered (waited for without a deadline as a correctness signal: a shortfall is re-confirmed after a second 5 s wait), never more than limit, and every unanswered open connection shows positive evidence of not being served - its 24 request bytes are still unread in the server-side receive queue (FIONREAD on the accepted socket or rx_queue in /proc/net/tcp) and stay so over a 40 ms grace. At the end all connections are closed, `limit` fresh ones must all be served and one more must not. non-trivial = more than `limit` connections were open at some point and at least 4 different ending kinds were used";
+pub const RULE: &str = "proptest sequences of connection lifecycles against an in-process server with connection limit 1..4 (2-worker runtime, and current-thread runtime with 1..3 listener threads sharing the server on one port as in memcrsd's current-thread mode): Open steps (up to limit+3 connections open at once) and End steps ending a selected open connection by client close after a complete exchange, quit, quitq, close in the middle of a header, close in the middle of a body, abortive reset, protocol error (bad magic), oversized item followed by close, or (for a connection still waiting) giving up; plus idle-timeout scenarios (server timeout 1 s) in which served connections are left idle or stalled inside a header, a body or an oversized body, and a scenario in which a waiting connection outlives the receive timeout while the served one stays busy. After EVERY step a noop is outstanding on every open connection and the slot model is checked: exactly min(limit, open) connections have been answered (waited for without a deadline as a correctness signal: a shortfall is re-confirmed after a second 5 s wait), never more than limit, and every unanswered open connection shows positive evidence of not being served - its 24 request bytes are still unread in the server-side receive queue (FIONREAD on the accepted socket or rx_queue in /proc/net/tcp) and stay so over a 40 ms grace. At the end all connections are closed, `limit` fresh ones must all be served and one more must not. non-trivial = more than `limit` connections were open at some point and at least 4 different ending kinds were used";
 pub const ASSUME: &[&str] = &[
     "which waiting connection is served next is not asserted",
     "the 40 ms over-serve grace can only miss, never alarm; the under-serve wait alarms only if the machine stalls for 5 s twice",
@@ -208,6 +211,7 @@ pub fn run_case(case: &C17Case) -> CaseReport {
         workers: case.workers as usize,
         timeout_secs: if case.idle { 1 } else { 60 },
         item_limit,
+        listeners: if case.workers == 0 { case.listeners.max(1) as usize } else { 1 },
         ..ServerOpts::default()
     };
     let server = match netpipe::start_server(opts) {
@@ -386,6 +390,7 @@ pub fn run_case(case: &C17Case) -> CaseReport {
     rep.nontrivial = w.max_open > w.limit && w.kinds_used.len() >= if case.idle { 2 } else { 4 };
     rep.classes.push(format!("limit{}", case.limit));
     rep.classes.push(format!("workers{}", case.workers));
+    rep.classes.push(format!("listeners{}", if case.workers == 0 { case.listeners.max(1) } else { 1 }));
     if case.idle {
         rep.classes.push("idle_timeout".into());
     }
@@ -428,9 +433,75 @@ pub fn strategy(limits: Vec<u32>, idle_pct: u32) -> BoxedStrategy<C17Case> {
                     pre.push(Step::Stall { sel: (j * 97 % 256) as u8, kind: (workers as usize + j + limit as usize) as u8 });
                 }
             }
-            C17Case { limit, workers, steps: pre, idle }
+            C17Case { limit, workers, steps: pre, idle, listeners: 1 + (limit as u8 + workers) % 3 }
         })
         .boxed()
+}
+
+/// The limit is reached, the served connection stays busy, a second connection waits longer than the
+/// receive timeout (1 s): it must neither be dropped nor hand back a slot it never held.
+fn waiter_outlives_timeout(acc: &Accum) -> Option<FailInfo> {
+    use std::io::Write;
+    for workers in [0usize, 2] {
+        let server = netpipe::start_server(ServerOpts { conn_limit: 1, timeout_secs: 1, workers, ..ServerOpts::default() }).ok()?;
+        let wait = Duration::from_secs(5);
+        let mut a = Client::connect(server.port).ok()?;
+        let _ = a.sock.set_nonblocking(false);
+        let _ = a.sock.write_all(&wire::simple(wire::NOOP, 1).bytes());
+        if !a.read_until(wait, |c| c.has_opaque(1)) {
+            continue;
+        }
+        let mut b = Client::connect(server.port).ok()?;
+        let _ = b.sock.set_nonblocking(false);
+        let _ = b.sock.write_all(&wire::simple(wire::NOOP, 2).bytes());
+        // keep a busy for 2.4 s
+        let mut a_alive = true;
+        for i in 0..16u32 {
+            std::thread::sleep(Duration::from_millis(150));
+            if a.sock.write_all(&wire::simple(wire::NOOP, 10 + i).bytes()).is_err() || !a.read_until(wait, |c| c.has_opaque(10 + i)) {
+                a_alive = false;
+                break;
+            }
+        }
+        b.read_available();
+        let b_served_early = b.has_opaque(2);
+        let b_closed = b.eof || b.reset;
+        // a third connection must not be served while a is still served
+        let mut c = Client::connect(server.port).ok()?;
+        let _ = c.sock.set_nonblocking(false);
+        let _ = c.sock.write_all(&wire::simple(wire::NOOP, 3).bytes());
+        std::thread::sleep(Duration::from_millis(150));
+        c.read_available();
+        let c_served_early = c.has_opaque(3);
+        // now a leaves: the waiting connection(s) get the slot
+        a.close();
+        let b_served_after = b_closed || b.read_until(wait, |c| c.has_opaque(2));
+        acc.record_enum(hash_of(&("waiter", workers)), true, &["waiter_outlives_timeout"], || json!({"workers": workers}));
+        b.reset_close();
+        c.reset_close();
+        let mut problem = None;
+        if !a_alive {
+            problem = Some("the busy served connection was dropped".to_string());
+        } else if b_served_early || c_served_early {
+            problem = Some(format!(
+                "with limit 1 and the served connection still active, a waiting connection was served (second connection: {}, third connection: {}): a slot was handed out twice",
+                b_served_early, c_served_early
+            ));
+        } else if b_closed {
+            problem = Some("the waiting connection was dropped by the server after the receive timeout although it had never been served".to_string());
+        } else if !b_served_after {
+            problem = Some("after the served connection closed, the waiting connection was not picked up".to_string());
+        }
+        if let Some(pm) = problem {
+            return Some(FailInfo {
+                clause: "waiter_and_timeout".into(),
+                msg: format!("[limit 1, receive timeout 1 s, runtime workers {}] {}", workers, pm),
+                signature: "waiter_and_timeout".into(),
+                detail: json!({"scenario": "waiter_outlives_timeout", "workers": workers}),
+            });
+        }
+    }
+    None
 }
 
 pub fn check(ctx: &mut Ctx) -> i32 {
@@ -445,6 +516,11 @@ pub fn check(ctx: &mut Ctx) -> i32 {
             }
             acc.count("regress_passed", 1);
         }
+    }
+    if let Some(fi) = waiter_outlives_timeout(&acc) {
+        report_violation(ctx, "c17_waiter", &fi.detail.clone(), &fi);
+        write_evidence(ctx, &acc, RULE, ASSUME, 1);
+        return EXIT_VIOLATION;
     }
     ctx.max_shrink_iters = 12;
     let quick = ctx.quick();
@@ -468,6 +544,20 @@ fn load(path: &str) -> Result<C17Case, String> {
 }
 
 pub fn replay(path: &str) -> i32 {
+    if std::fs::read_to_string(path).map(|s| s.contains("c17_waiter")).unwrap_or(false) {
+        let acc = Accum::new();
+        return match waiter_outlives_timeout(&acc) {
+            Some(fi) => {
+                println!("{}", fi.msg);
+                println!("VIOLATION property=C17 replay={}", path);
+                EXIT_VIOLATION
+            }
+            None => {
+                println!("replay {}: property C17 holds on this case", path);
+                EXIT_OK
+            }
+        };
+    }
     match load(path) {
         Ok(case) => match run_case(&case).fail {
             Some(fi) => {
